@@ -9,6 +9,8 @@ Inductive acase : Type :=
 | ACase (src : list line) (written : bytes) (o : res unit)
 (* the shipped dev/asm command run on a file holding the same text: standard output, exit status *)
 | ACmd (src : list line) (out : bytes) (exit : N)
+(* asm.MenuProcessor used directly: Add(code, choice, display, target) for each entry, then ToLines *)
+| AMenu (adds : list (bytes * bytes * bytes * bytes)) (o : res bytes)
 (* the command with its flag preprocessor: `asm -f table.csv file`; the table is given as its
    CSV records (lists of fields) *)
 | APre (rows : list (list bytes)) (src : list line) (out : bytes) (exit : N).
@@ -29,6 +31,35 @@ Definition asm_corr_ok (c : acase) : bool :=
   | APre rows src out ex =>
     (* load error, preprocess error, parse error => exit 1; panic => exit 2 *)
     let (mw, mx) := cmd_pre rows src in bytes_eqb mw out && (ex =? mx)
+  | AMenu adds o =>
+    outcome_eqb bytes_eqb
+      (obind (fold_left (fun acc a => obind acc (fun its =>
+                 let '(code, choice, display, target) := a in menu_proc_add its code choice display target)) adds (Ok []))
+             (fun its => Ok (to_lines its))) o
+  end.
+
+(* what a menu block must decode to, from the Add arguments alone: the display/selector pairs in
+   order, HALT, then one INCMP per entry with the selector bytes EXACTLY as they were given *)
+Definition menu_entry_instrs (a : bytes * bytes * bytes * bytes) : option (instr * instr) :=
+  let '(code, choice, display, target) := a in
+  if bytes_eqb code (s2b "UP") then Some (IMOut display choice, IInCmp [95] choice)
+  else if bytes_eqb code (s2b "NEXT") then Some (IMNext display choice, IInCmp [62] choice)
+  else if bytes_eqb code (s2b "PREVIOUS") then Some (IMPrev display choice, IInCmp [60] choice)
+  else if bytes_eqb code (s2b "DOWN") then Some (IMOut display choice, IInCmp target choice)
+  else None.
+Fixpoint menu_ref (adds : list (bytes * bytes * bytes * bytes)) : option (list instr * list instr) :=
+  match adds with
+  | [] => Some ([], [])
+  | a :: r => match menu_entry_instrs a, menu_ref r with
+              | Some (p, q), Some (ps, qs) => Some (p :: ps, q :: qs)
+              | _, _ => None
+              end
+  end.
+Definition menu_ok (adds : list (bytes * bytes * bytes * bytes)) (o : res bytes) : bool :=
+  match menu_ref adds, o with
+  | Some (ps, qs), Ok b =>
+    if forallb wf_instrb (ps ++ qs) then outcome_eqb (list_eqb instr_eqb) (parse_all b) (Ok (ps ++ IHalt :: qs)) else true
+  | _, _ => true
   end.
 
 (* C16 on the implementation's observed behaviour: a valid source that was assembled must
@@ -62,6 +93,7 @@ Definition c16_ok (c : acase) : bool :=
         end
       end
     else true
+  | AMenu adds o => menu_ok adds o
   end.
 
 (* class of a failing case: the first listed finding whose guard the source satisfies *)
@@ -77,6 +109,7 @@ Definition c16_class (c : acase) : N :=
   (* the classes are those of the source the assembler proper receives: names replaced *)
   | APre rows src _ _ =>
     match resolve (spec_lookup rows) src with Some src1 => src_class src1 | None => 0 end
+  | AMenu _ _ => 0
   end.
 
 Definition asm_mismatches (cs : list acase) : list N := bad_indices asm_corr_ok cs.
@@ -87,3 +120,7 @@ Fixpoint viol_from (i : N) (cs : list acase) : list (N * N) :=
   | c :: r => if c16_ok c then viol_from (i + 1) r else (i, c16_class c) :: viol_from (i + 1) r
   end.
 Definition asm_violations (cs : list acase) : list (N * N) := viol_from 0 cs.
+
+(* C14 judges the menu encoder used directly (asm/menu.go is one of its anchors): only AMenu cases *)
+Definition asm_violations_c14 (cs : list acase) : list (N * N) :=
+  map (fun i => (i, 0)) (bad_indices (fun c => match c with AMenu adds o => menu_ok adds o | _ => true end) cs).
